@@ -73,6 +73,7 @@ def nested_templates():
 
 
 def run(ctx, log):
+    progcheck.run_unspecified(ctx, log)
     # enumerated families decided by Sem.v: how function / loop bodies end; names that live in several name spaces
     extra_sem_families = []
     extra_sem_families += progcheck.nested_names_family(ctx.quick)
@@ -80,7 +81,7 @@ def run(ctx, log):
     for s_ in extra_sem_families:
         ctx.seen(("family", s_))
     # the same small programs at every size around the widths the implementation encodes things in (closed-form results)
-    progcheck.run_scale(ctx, log, ['locals'])
+    progcheck.run_scale(ctx, log, ['locals', 'names'])
     rng = ctx.rng
     n = 500 if ctx.quick else 8000
     srcs, asts = progcheck.gen_sources(ctx, n, max_depth=3, floats=False)
